@@ -79,6 +79,18 @@ CHECKS = {
         note='Fault positions enumerated per history (capped at 6/14 per tier); histories and schedules sampled.',
         technique='offline checker over wire log, completion log and device memory image (conservation, exactly-once, ordering); fault-position enumeration under a deterministic scheduler',
         engine='detsched+simcf', design='DESIGN.md §3 C06'),
+    'C11': dict(
+        level='fault_enumeration',
+        text=('Real connections against the simulated device with real cache directories (tempfile). Per case the cache is '
+              'populated by a download, a fresh Crazyflie re-connects through it, and the tables at `connected` plus the '
+              'device-side view (were item requests sent) are compared with the device tables. Every written cache file is '
+              'then cut at EVERY byte offset and TocCache.fetch must miss; connections are repeated on sampled offsets and '
+              'on randomly garbled files; CRC values 0 / 0xFFFFFFFF / log==param collision; directory configurations none, '
+              'ro, rw, ro+rw, corrupt ro + rw, stale ro + rw. A sys.addaudithook monitor and directory hashes decide that '
+              'the read-only directory is never written.'),
+        note='Crash model = prefix of the intended file. Semantically valid but wrong JSON is outside the statement.',
+        technique='crash-point enumeration over cache-file prefixes + audit-hook file-system monitor + table oracle at connected',
+        engine='detsched+simcf', design='DESIGN.md §3 C11'),
 }
 
 PENDING_REASON = ('check not built yet in this work session (design in DESIGN.md §3); nothing is claimed for it '
